@@ -319,7 +319,18 @@ fn w_roundtrip(ctx: &mut Ctx) {
                             }
                         } else if r1.status == SolverStatus::Solved && r2.status == SolverStatus::Solved {
                             let den = r1.obj_val.abs().max(1.0);
-                            let tol = 20.0 * (st.tol_gap_abs + st.tol_gap_rel * den) + 1e-6 * den;
+                            // two points that both pass the documented test may differ in objective by their gaps plus
+                            // |r_p'z| + |r_d'x| (weak duality with residuals); the documented residual test bounds r_p
+                            // only by tol_feas*max(1,|b|+|x|+|s|) and r_d by tol_feas*max(1,|q|+|x|+|z|), which is a lot
+                            // when the solution itself is huge (same slack as in C08)
+                            let ninf = |v: &[f64]| v.iter().fold(0.0f64, |m, x| m.max(x.abs()));
+                            let n1 = |v: &[f64]| v.iter().map(|x| x.abs()).sum::<f64>();
+                            let mut feas_slack = 0.0;
+                            for r in [&r1, &r2] {
+                                let bn = ninf(&p.b.iter().map(|v| v.min(bound)).collect::<Vec<_>>());
+                                feas_slack += st.tol_feas * ((1.0f64).max(bn + ninf(&r.x) + ninf(&r.s)) * n1(&r.z) + (1.0f64).max(ninf(&p.q) + ninf(&r.x) + ninf(&r.z)) * n1(&r.x));
+                            }
+                            let tol = 20.0 * (st.tol_gap_abs + st.tol_gap_rel * den) + 1e-6 * den + 4.0 * feas_slack;
                             if !((r1.obj_val - r2.obj_val).abs() <= tol) {
                                 bad("loaded_solve_objective", json!({"original": r1.obj_val, "loaded": r2.obj_val, "tol": tol}));
                             }
